@@ -1,7 +1,9 @@
 use crate::Check;
 
 pub mod c02;
+pub mod c04;
 pub mod c05;
+pub mod c09;
 pub mod c11;
 pub mod c12;
 pub mod c14;
@@ -14,6 +16,8 @@ pub fn get(id: &str) -> Option<Box<dyn Check>> {
         "C15" => Some(Box::new(c15::C15)),
         "C14" => Some(Box::new(c14::C14)),
         "C12" => Some(Box::new(c12::C12)),
+        "C04" => Some(Box::new(c04::C04)),
+        "C09" => Some(Box::new(c09::C09)),
         "C05" => Some(Box::new(c05::C05)),
         _ => None,
     }
